@@ -248,13 +248,13 @@ def build_track(case):
         )
     element = tobjs[0] if len(tobjs) == 1 else track.Parallel(tobjs)
     trk = track.Track("verif", challenges=[track.Challenge("c", default=True, schedule=[element])])
+    # the allocations are the ones rally's real Allocator produces for this schedule element (client id = row of the matrix), so that what
+    # the executor is told about its position among the clients of the element (ramp-up, pacing, partitioning) is rally's, not the harness's
     allocs = []
-    g = 0
-    total = sum(t.clients for t in tobjs)
-    for t in tobjs:
-        for i in range(t.clients):
-            allocs.append((g, driver.TaskAllocation(t, i, g, total)))
-            g += 1
+    for client_id, row in enumerate(driver.Allocator([element]).allocations):
+        for ta in row:
+            if isinstance(ta, driver.TaskAllocation):
+                allocs.append((client_id, ta))
     return trk, tobjs, allocs
 
 
